@@ -217,7 +217,7 @@ def gen_history(rng, idx, base, opts):
         btasks = [dict(t) for t in tasks]
         bop = {"op": "build", "tasks": btasks, "cfg": cfg, "faults": faults}
         if rng.random() < opts.get("illformed", 0.0):
-            kind = rng.choice(["dup", "dup_spell", "cycle", "after_cycle", "bad_k", "bad_after", "self"])
+            kind = rng.choice(["dup", "dup_spell", "cycle", "after_cycle", "bad_k", "bad_after", "self", "after_multi", "mem_cycle"])
             with_prod = [t for t in btasks if t["prods"]]
             if kind in ("dup", "dup_spell") and with_prod and len(btasks) > 1:
                 a = rng.choice(with_prod)
@@ -239,6 +239,32 @@ def gen_history(rng, idx, base, opts):
                     t, u = rng.choice(pairs)        # t depends on u; make u run after t
                     u["after_fn"] = []
                     u["after_expr"] = f"t{t['id']}_"
+            elif kind == "after_multi":
+                # a cycle closed by several `after` edges together: c after b, b after d, d after b (in this order)
+                if len(with_prod) >= 3:
+                    cc, bb, dd = rng.sample(with_prod, 3)
+                    for x in (cc, bb, dd):
+                        x["after_fn"] = []
+                    cc["after_expr"] = f"t{bb['id']}_"
+                    bb["after_expr"] = f"t{dd['id']}_"
+                    dd["after_expr"] = f"t{bb['id']}_"
+                    rest = [t for t in btasks if t["id"] not in (cc["id"], bb["id"], dd["id"])]
+                    btasks[:] = [cc, bb, dd] + rest if rng.random() < 0.7 else rest + [cc, bb, dd]
+            elif kind == "mem_cycle":
+                # a cycle through values handed over in memory, the consumer declared before the producer
+                # (both tasks in ONE module: collection rewrites the node_info of a PythonNode object, so a value is
+                #  handed over only between tasks that share the node object)
+                pairs = [(x, y) for x in btasks for y in btasks if x["id"] < y["id"] and x["module"] == y["module"]]
+                if pairs:
+                    a, b = rng.choice(pairs)
+                    if rng.random() < 0.5:
+                        a, b = b, a
+                    for x in (a, b):
+                        x["after_fn"], x["after_expr"] = [], None
+                    a["deps"] = [d for d in a["deps"] if d < 300] + [302]
+                    a["prods"] = [p for p in a["prods"] if p < 300] + [301]
+                    b["deps"] = [d for d in b["deps"] if d < 300] + [301]
+                    b["prods"] = [p for p in b["prods"] if p < 300] + [302]
             elif kind == "bad_k":
                 cfg[rng.choice(["expression", "marker_expression"])] = rng.choice(["slow and", "(gpu", "a $ b", "not"])
                 bop["bad_expr"] = True
